@@ -88,6 +88,29 @@ def overridden_program(history):
     return {'encoding': MAIN, 'calls': calls}
 
 
+def mainless_program(history):
+    """The same history written with no main encoding at all: the first
+    container that declares one is not the bottom of anything.  Text
+    sections with nothing to inherit declare their own."""
+    prog = history_program(history)
+    calls = []
+    stack = [None]
+
+    for op, kw in prog['calls']:
+        kw = dict(kw)
+
+        if op == 'change':
+            stack = [None, kw.get('encoding')]
+        elif op == 'file':
+            stack = stack[:2] + [kw.get('encoding') or stack[1]]
+        elif op != 'diff' and stack[-1] is None:
+            kw['encoding'] = X
+
+        calls.append([op, kw])
+
+    return {'encoding': None, 'calls': calls}
+
+
 def nontrivial_history(program):
     """A change follows a file inside a change that declared an encoding, or
     sibling files with different declarations."""
@@ -376,6 +399,10 @@ def run_chunk(chunk, st):
 
         if res is None and len(history) <= 2:
             res = judge(overridden_program(history))
+            evals += 1
+
+        if res is None and len(history) <= 2:
+            res = judge(mainless_program(history))
             evals += 1
 
         if nontrivial_history(program):
